@@ -16,7 +16,7 @@ for p in "${patches[@]}"; do
         git -C "$WT" checkout -q -- .
     fi
     if ! git -C /repo apply "$(realpath "$p")"; then echo "$name: patch does not apply"; continue; fi
-    props="$prop"; [ -n "${ALL:-}" ] && props="C11 C12 C13"
+    props="$prop"; [ -n "${ALL:-}" ] && props="C11 C12 C13"; [ "$prop" = NEUTRAL ] && props="C11 C12 C13"
     for q in $props; do
         t0=$(date +%s)
         out=$(./check.sh "$q" quick 2>&1); code=$?
